@@ -174,6 +174,8 @@ func c05GenTx(r gen.R, focus string, probe bool) c05Tx {
 			t.Body = "a=1&pad=" + strings.Repeat("x", 40) + "&b=attack"
 			t.BodyJSON = false
 			t.RespBody = "predecessor response " + strings.Repeat("p", 30)
+			// a Close that fails, followed by a second Close
+			t.CloseTwice = gen.Chance(r, 0.4)
 		}
 	}
 	return t
@@ -453,6 +455,8 @@ func c05Judge(w *fw.W, c *c05Case) {
 			focus = c.Pred[i].Steer[0]
 		}
 		switch {
+		case c.Pred[i].CloseTwice && c.Pred[i].RmSpill:
+			focus += "+failed-close-then-close"
 		case c.Pred[i].CloseTwice:
 			focus += "+close-twice"
 		case c.Pred[i].NoLogging:
